@@ -44,3 +44,44 @@ Theorem C03_seq_upgrade_iff_owner :
     step veq heq vdefault o HUpgrade = Ok (o', OBool b, w) -> (b = true <-> 0 < owners o).
 Proof. intros V veq heq vdefault o o' b w; apply upgrade_iff_owner. Qed.
 Print Assumptions C03_seq_upgrade_iff_owner.
+
+(* ---------------- lock granularity: concurrent drops and upgrades ---------------- *)
+From EB Require Import ObsConc ObsConcFacts.
+
+(* with the repaired Drop (Arc::into_inner): at every point of every schedule where no thread is in
+   the middle of a drop or an upgrade, the state is closed iff no owner is left, and no thread
+   panicked (read_noblock never meets a writer) *)
+Theorem C03_conc_closed_iff_no_owner :
+  forall (V : Type) (v : V) ver clones subs pending ops sched,
+    start_ok ver clones subs pending ops ->
+    let s := run_sched true (cinit v ver clones subs pending ops) sched in
+    handles_quiescent s = true -> c_panicked s = [] /\ (c_ver s = 0 <-> c_clones s = 0).
+Proof. intros V v ver clones subs pending ops sched; apply conc_closed_iff_no_owner. Qed.
+Print Assumptions C03_conc_closed_iff_no_owner.
+
+(* a successfully upgraded weak reference is an owner: the state is not closed *)
+Theorem C03_conc_upgrade_sound :
+  forall (V : Type) (v : V) ver clones subs pending ops sched t th,
+    start_ok ver clones subs pending ops ->
+    let s := run_sched true (cinit v ver clones subs pending ops) sched in
+    nth_error (c_threads s) t = Some th -> t_op th = CUpgrade -> t_pc th = PDone None None (Some true) ->
+    handles_quiescent s = true -> c_ver s <> 0.
+Proof. intros V v ver clones subs pending ops sched t th; apply conc_upgrade_sound. Qed.
+Print Assumptions C03_conc_upgrade_sound.
+
+(* the original Drop (plain load of the clone counter) is refuted: two concurrent droppers never
+   close (finding F1, repaired in 8ebfecc) ... *)
+Theorem C03_conc_refuted_before_fix :
+  exists sched,
+    let s := run_sched false (cinit 0 1 2 [1] [0] [CDrop; CDrop]) sched in
+    handles_quiescent s = true /\ c_clones s = 0 /\ c_ver s <> 0 /\ c_woken s = [].
+Proof. exact conc_closed_iff_no_owner_refuted_before_fix. Qed.
+Print Assumptions C03_conc_refuted_before_fix.
+
+(* ... and a drop racing with an upgrade closes under a live owner *)
+Theorem C03_conc_upgrade_refuted_before_fix :
+  exists sched,
+    let s := run_sched false (cinit 0 1 1 [1] [0] [CDrop; CUpgrade]) sched in
+    handles_quiescent s = true /\ c_clones s = 1 /\ c_ver s = 0.
+Proof. exact conc_upgrade_refuted_before_fix. Qed.
+Print Assumptions C03_conc_upgrade_refuted_before_fix.
